@@ -1,8 +1,9 @@
 // C15 (reply parser, engine I): exhaustive datagram sweeps through the real DnsRequest::onUdpRecv.
-// usage: parser_harness struct <shard> <nshards> [pairs]      structured sweeps over 4 base replies
+// usage: parser_harness struct <shard> <nshards> [pairs] [sock]   structured sweeps over 6 base replies (+ synthetic pointer chains / cycles)
+//                                                               sock: delivery through UdpSocket::onSocketEvent + the executable's recvfrom()
 //        parser_harness tail   <shard> <nshards> <maxlen>     matching id + every byte string of length <= maxlen
 //        parser_harness tail3s <shard> <nshards>              matching id + 2 flag bytes + one byte of {00,01,3f,40,c0,ff}
-//        parser_harness one <hex>                             replay one datagram (id bytes are overwritten)
+//        parser_harness one <hex> [sock]                      replay one datagram (id bytes are overwritten)
 // A real lookup is outstanding (id 0xA5A5, one configured server); each datagram is delivered twice, once after
 // painting the dead stack below the call with 0x00 and once with 0xA5 (0x01 in the tail sweep once id and flags are
 // present, see worker_thread), on equal object states. Shards are picked by a hash of the case index.
@@ -48,7 +49,7 @@ struct Shm {
   volatile int phase;               // 1 = paint 0x00 run, 2 = second-paint run, 3 = oracle
   volatile int death;               // set by the worker's SIGSEGV handler: 1 stack exhausted, 2 other SIGSEGV
   volatile int capped, finished;
-  uint64_t execs, callbacks, ignored, reused, rebuilt, viols, samples, paint_diff, strict_exact, strict_differs;
+  uint64_t execs, callbacks, ignored, reused, rebuilt, viols, samples, paint_diff, strict_exact, strict_differs, probes;
   SigEnt sigs[128]; OutEnt outs[256];
 };
 static Shm *shm;
@@ -95,17 +96,35 @@ static void world_make() {
 }
 static const size_t kPaint = 48 * 1024;
 __attribute__((noinline)) static void paint(unsigned char v) { unsigned char buf[kPaint]; memset(buf, v, sizeof buf); asm volatile("" : : "r"(buf) : "memory"); }
-__attribute__((noinline)) static void deliver(const uint8_t *p, size_t n) { w_dns->feed(p, n, *w_from); }
-__attribute__((noinline)) static Obs run_once(const Bytes &dg, unsigned char pv) {
+static bool g_sock = false;            // deliver through the real receive path (UdpSocket::onSocketEvent, recvfrom() of common.h)
+__attribute__((noinline)) static void deliver(const uint8_t *p, size_t n, int rx) {
+  if (!g_sock) { w_dns->feed(p, n, *w_from); return; }
+  socket_event(w_dns, rx, p, n, htonl(0x7f000001u));
+}
+__attribute__((noinline)) static Obs run_once(const Bytes &dg, unsigned char pv, int rx = RX_DATAGRAM) {
   world_make();
   Obs o; w_sink = &o;
   // exact-size heap copy: an over-read is an ASan heap-buffer-overflow
   uint8_t *p = (uint8_t *)malloc(dg.size() ? dg.size() : 1); memcpy(p, dg.data(), dg.size());
   paint(pv);
-  deliver(p, dg.size());
+  deliver(p, dg.size(), rx);
   free(p); w_sink = nullptr; shm->execs++;
   w_pristine = !o.cb && w_dns->requests_.size() == 1 && w_dns->requests_.begin()->first == kId && w_dns->requests_.begin()->second.response_count == 0;
   return o;
+}
+
+// A datagram that was ignored must leave the lookup intact: the next acceptable reply (the intact base reply "A") still
+// completes it - once, with that reply's address - and a second copy of that reply is then ignored. Decided by what the
+// callback receives, not by the implementation's table.
+static Bytes g_probe;
+static std::string probe_world() {
+  Obs o; w_sink = &o;
+  uint8_t *p = (uint8_t *)malloc(g_probe.size()); memcpy(p, g_probe.data(), g_probe.size());
+  deliver(p, g_probe.size(), RX_DATAGRAM); int first = o.cb; deliver(p, g_probe.size(), RX_DATAGRAM);
+  free(p); w_sink = nullptr; shm->execs += 2; shm->probes++; w_pristine = false;
+  if (first != 1 || o.cb != 1) return "the intact reply that follows is answered with " + std::to_string(first) + " callback(s), its duplicate with " + std::to_string(o.cb - first);
+  if (o.status != 0 || o.a.size() != 1 || o.a[0] != Addr{{1, 2, 3, 4}} || !o.c.empty()) return "the intact reply that follows is reported as " + o.str();
+  return "";
 }
 
 // ------------------------------------------------------------------------------------------------
@@ -146,11 +165,11 @@ static void judge(const Bytes &dg, const std::string &label, const Obs &o0, cons
 // ------------------------------------------------------------------------------------------------
 // case enumeration
 static const uint8_t kSub[] = {0, 1, 0x3f, 0x40, 0xc0, 0xff};
-struct Case { Bytes dg; std::string label; };
+struct Case { Bytes dg; std::string label; int rx; };
 static std::vector<Case> g_cases;           // struct mode
 static uint64_t g_ncases = 0; static int g_tail_max = 0;
 
-struct Base { const char *name; Bytes b; std::vector<size_t> ptrs; Obs expect; };
+struct Base { const char *name; Bytes b; std::vector<size_t> ptrs; Obs expect; bool big = false; std::vector<size_t> hot; /*MAX: byte positions worth substituting*/ };
 static std::vector<Base> bases() {
   std::vector<Base> v;
   auto A = [](uint8_t a, uint8_t b, uint8_t c, uint8_t d) { return Addr{{a, b, c, d}}; };
@@ -176,10 +195,44 @@ static std::vector<Base> bases() {
     x.ptrs.push_back(b.size()); put16(b, 0xc00c); put16(b, 1); put16(b, 1); put32(b, 62); put16(b, 4); b.insert(b.end(), {3, 3, 3, 3});
     x.ptrs.push_back(b.size()); put16(b, 0xc00e); put16(b, 2); put16(b, 1); put32(b, 9); put16(b, 2); x.ptrs.push_back(b.size()); put16(b, 0xc00c);   // authority: b NS a.b
     x.expect.cb = 1; x.expect.status = 0; x.expect.a = {A(1, 1, 1, 1), A(2, 2, 2, 2), A(3, 3, 3, 3)}; v.push_back(x); }
+  // BIG (633 bytes): everything of interest lies behind offset 512, so the high bits of compression pointers and of set_pos matter,
+  // and the reported CNAME has a label of the maximum length 63: TXT with 500 bytes of rdata; CNAME whose owner name is written
+  // out at offset 533 and whose rdata is <63 x 'x'> <yz> <pointer to that owner name>; A whose owner is a pointer to the CNAME rdata
+  { Base x; x.name = "BIG"; x.big = true; x.b = header(0, 0x8180, 1, 3, 0, 0);
+    Bytes &b = x.b; put_name(b, "a.b"); put16(b, 1); put16(b, 1);
+    x.ptrs.push_back(b.size()); put16(b, 0xc00c); put16(b, 16); put16(b, 1); put32(b, 60); put16(b, 500); b.push_back(255); b.insert(b.end(), 255, 't'); b.push_back(243); b.insert(b.end(), 243, 'u');
+    size_t owner = b.size(); put_name(b, "a.b"); put16(b, 5); put16(b, 1); put32(b, 300); put16(b, 64 + 3 + 2);
+    size_t rd = b.size(); b.push_back(63); b.insert(b.end(), 63, 'x'); b.insert(b.end(), {2, 'y', 'z'}); x.ptrs.push_back(b.size()); put16(b, 0xc000 | owner);
+    x.ptrs.push_back(b.size()); put16(b, 0xc000 | rd); put16(b, 1); put16(b, 1); put32(b, 60); put16(b, 4); b.insert(b.end(), {5, 6, 7, 8});
+    x.expect.cb = 1; x.expect.status = 0; x.expect.a = {A(5, 6, 7, 8)}; x.expect.c = {std::string(63, 'x') + ".yz.a.b"}; v.push_back(x); }
+  // MAX (4096 bytes = UdpSocket's whole receive buffer): TXT with 3085 bytes of rdata in which the name t.u is planted at offset
+  // 3000; CNAME big.<pointer to offset 3000>; 60 A records; the last record ends with the last byte of the datagram
+  { Base x; x.name = "MAX"; x.big = true; x.b = header(0, 0x8180, 1, 62, 0, 0);
+    Bytes &b = x.b; put_name(b, "a.b"); put16(b, 1); put16(b, 1);
+    put16(b, 0xc00c); put16(b, 16); put16(b, 1); put32(b, 60); put16(b, 3085); size_t txt = b.size(); b.insert(b.end(), 3085, 0xee);
+    const uint8_t planted[] = {1, 't', 1, 'u', 0}; memcpy(&b[3000], planted, 5); (void)txt;
+    size_t cn = b.size(); put16(b, 0xc00c); put16(b, 5); put16(b, 1); put32(b, 300); put16(b, 6); b.insert(b.end(), {3, 'b', 'i', 'g'}); x.ptrs.push_back(b.size()); put16(b, 0xc000 | 3000);
+    size_t cn_end = b.size();
+    for (int i = 0; i < 60; i++) { if (i == 59) x.ptrs.push_back(b.size()); put16(b, 0xc00c); put16(b, 1); put16(b, 1); put32(b, 1000 + i); put16(b, 4); b.insert(b.end(), {20, 0, (uint8_t)i, 1}); x.expect.a.push_back(A(20, 0, (uint8_t)i, 1)); }
+    for (size_t i = 0; i < b.size(); i++) if (i < 48 || (i >= 2996 && i < 3008) || (i + 4 >= cn && i < cn_end + 18) || i + 20 >= b.size()) x.hot.push_back(i);
+    x.expect.cb = 1; x.expect.status = 0; x.expect.c = {"big.t.u"}; v.push_back(x); }
   return v;
 }
-static void add_case(Bytes dg, const std::string &label) { if (dg.size() >= 1) dg[0] = kId >> 8; if (dg.size() >= 2) dg[1] = kId & 0xff; g_cases.push_back({dg, label}); }
-static void add_case_raw(const Bytes &dg, const std::string &label) { g_cases.push_back({dg, label}); }
+// synthetic: CNAME whose rdata is the head of a chain of k compression pointers (the last one reaches the label "x", or closes a
+// cycle back to the first), followed by an A record; the chain lives behind the last record
+static Bytes chain_reply(int k, bool cycle) {
+  Bytes b = header(0, 0x8180, 1, 2, 0, 0); put_name(b, "a.b"); put16(b, 1); put16(b, 1);
+  put16(b, 0xc00c); put16(b, 5); put16(b, 1); put32(b, 300); put16(b, 2); size_t head = b.size(); put16(b, 0);
+  put16(b, 0xc00c); put16(b, 1); put16(b, 1); put32(b, 60); put16(b, 4); b.insert(b.end(), {7, 7, 7, 7});
+  size_t first = b.size();                      // pointers 2..k live here, then the label
+  size_t label = first + 2 * (size_t)(k - 1);
+  auto ptr = [&](size_t at, size_t to) { b[at] = 0xc0 | (to >> 8); b[at + 1] = to & 0xff; };
+  b.resize(label); b.insert(b.end(), {1, 'x', 0});
+  for (int i = 0; i < k; i++) { size_t at = i == 0 ? head : first + 2 * (size_t)(i - 1); size_t to = i + 1 < k ? first + 2 * (size_t)i : (cycle ? head : label); ptr(at, to); }
+  return b;
+}
+static void add_case(Bytes dg, const std::string &label, int rx = RX_DATAGRAM) { if (dg.size() >= 1) dg[0] = kId >> 8; if (dg.size() >= 2) dg[1] = kId & 0xff; g_cases.push_back({dg, label, rx}); }
+static void add_case_raw(const Bytes &dg, const std::string &label) { g_cases.push_back({dg, label, RX_DATAGRAM}); }
 static void build_struct_cases(bool pairs) {
   char l[160];
   for (auto &B : bases()) {
@@ -190,11 +243,25 @@ static void build_struct_cases(bool pairs) {
     for (size_t f = 0; f < 4; f++) { unsigned real = rd16(b.data(), 4 + 2 * f); const char *fn[] = {"qd", "an", "ns", "ar"};
       std::set<unsigned> vals = {0u, 1u, real, real + 1, 255u, 65535u};
       for (unsigned val : vals) { Bytes m = b; m[4 + 2 * f] = val >> 8; m[5 + 2 * f] = val & 0xff; snprintf(l, sizeof l, "count:%s %scount=%u(real %u)", B.name, fn[f], val, real); add_case(m, l); } }
-    for (size_t p : B.ptrs) for (size_t t = 0; t <= n + 1; t++) { Bytes m = b; m[p] = 0xc0 | (t >> 8); m[p + 1] = t & 0xff; snprintf(l, sizeof l, "pointer:%s ptr@%zu->%zu%s", B.name, p, t, t == p ? "(self)" : t >= n ? "(outside)" : t > p ? "(forward)" : ""); add_case(m, l); }
+    std::vector<size_t> targets; for (size_t t = 0; t <= n + 1; t++) targets.push_back(t); if (B.big) { targets.push_back(8191); targets.push_back(16383); }
+    for (size_t p : B.ptrs) for (size_t t : targets) { Bytes m = b; m[p] = 0xc0 | (t >> 8); m[p + 1] = t & 0xff; snprintf(l, sizeof l, "pointer:%s ptr@%zu->%zu%s", B.name, p, t, t == p ? "(self)" : t >= n ? "(outside)" : t > p ? "(forward)" : ""); add_case(m, l); }
     for (size_t i = 0; i < B.ptrs.size(); i++) for (size_t j = 0; j < B.ptrs.size(); j++) if (i != j) { size_t p = B.ptrs[i], q = B.ptrs[j]; Bytes m = b; m[p] = 0xc0 | (q >> 8); m[p + 1] = q & 0xff; m[q] = 0xc0 | (p >> 8); m[q + 1] = p & 0xff; snprintf(l, sizeof l, "pointer:%s loop-of-two ptr@%zu<->ptr@%zu", B.name, p, q); add_case(m, l); }
+    // every cycle of three pointers (a loop detector that only remembers the previous offset passes self-loops and loops of two)
+    for (size_t i = 0; i < B.ptrs.size(); i++) for (size_t j = 0; j < B.ptrs.size(); j++) for (size_t k = 0; k < B.ptrs.size(); k++) if (i != j && j != k && i != k) {
+      size_t p = B.ptrs[i], q = B.ptrs[j], r = B.ptrs[k]; Bytes m = b; m[p] = 0xc0 | (q >> 8); m[p + 1] = q & 0xff; m[q] = 0xc0 | (r >> 8); m[q + 1] = r & 0xff; m[r] = 0xc0 | (p >> 8); m[r + 1] = p & 0xff;
+      snprintf(l, sizeof l, "pointer:%s loop-of-three ptr@%zu->ptr@%zu->ptr@%zu", B.name, p, q, r); add_case(m, l); }
     // substitution is applied after the id is written, so positions 0/1 produce non-matching ids
-    for (size_t i = 0; i < n; i++) for (uint8_t s : kSub) { Bytes m = b; m[0] = kId >> 8; m[1] = kId & 0xff; if (m[i] == s) continue; m[i] = s; snprintf(l, sizeof l, "byte:%s [%zu]=0x%02x", B.name, i, s); add_case_raw(m, l); }
-    if (pairs) for (size_t i = 2; i < n; i++) for (size_t j = i + 1; j < n; j++) for (uint8_t s : kSub) for (uint8_t t : kSub) { Bytes m = b; m[0] = kId >> 8; m[1] = kId & 0xff; if (m[i] == s || m[j] == t) continue; m[i] = s; m[j] = t; snprintf(l, sizeof l, "byte2:%s [%zu]=0x%02x,[%zu]=0x%02x", B.name, i, s, j, t); add_case_raw(m, l); }
+    std::vector<size_t> pos = B.hot; if (pos.empty()) for (size_t i = 0; i < n; i++) pos.push_back(i);
+    for (size_t i : pos) for (uint8_t s : kSub) { Bytes m = b; m[0] = kId >> 8; m[1] = kId & 0xff; if (m[i] == s) continue; m[i] = s; snprintf(l, sizeof l, "byte:%s [%zu]=0x%02x", B.name, i, s); add_case_raw(m, l); }
+    if (pairs && !B.big) for (size_t i = 2; i < n; i++) for (size_t j = i + 1; j < n; j++) for (uint8_t s : kSub) for (uint8_t t : kSub) { Bytes m = b; m[0] = kId >> 8; m[1] = kId & 0xff; if (m[i] == s || m[j] == t) continue; m[i] = s; m[j] = t; snprintf(l, sizeof l, "byte2:%s [%zu]=0x%02x,[%zu]=0x%02x", B.name, i, s, j, t); add_case_raw(m, l); }
+  }
+  // pointer chains and cycles of every length around the implementation's nesting limit and far beyond it (either decoding or
+  // ignoring is accepted; what is checked is termination, stack use, and that nothing is reported that the chain does not reach)
+  for (int k : {1, 2, 3, 4, 8, 14, 15, 16, 17, 18, 19, 32, 64, 200, 1000}) for (int cyc = 0; cyc < 2; cyc++) {
+    snprintf(l, sizeof l, "chain:%s-of-%d-pointers", cyc ? "cycle" : "chain", k); add_case(chain_reply(k, cyc != 0), l); }
+  if (g_sock) {   // kernel behaviours other than "here is a datagram": nothing may be processed (a valid reply is queued but NOT handed out)
+    Bytes a = bases()[0].b;
+    add_case(a, "recv:zero-length-datagram", RX_ZERO); add_case(a, "recv:recvfrom-fails-EAGAIN", RX_ERROR);
   }
   g_ncases = g_cases.size();
 }
@@ -210,6 +277,7 @@ static void tail_case(uint64_t idx, Bytes &dg, std::string &label) {
 // ------------------------------------------------------------------------------------------------
 // worker
 static uint64_t g_shard = 0, g_nshards = 1; static double g_deadline = 0;
+static uint64_t g_probe_every = 1, g_ignored_seen = 0;
 // hashed sharding: expensive datagrams (QR=1, rcode 0, garbage counts) would otherwise all fall into the same residue class
 static inline bool mine(uint64_t i) { return (((uint32_t)i * 2654435761u) >> 11) % g_nshards == g_shard; }
 static char g_altstack[65536];
@@ -229,19 +297,27 @@ static void *worker_thread(void *arg) {
     if (!mine(i)) continue;
     if ((shm->done & 255) == 0 && real_now_s() > g_deadline) { shm->capped = 1; break; }
     shm->cur = i; shm->phase = 0;
-    const Bytes *pd; const std::string *pl;
-    if (g_tail) { tail_case(i, dg, label); pd = &dg; pl = &label; } else { pd = &g_cases[i].dg; pl = &g_cases[i].label; }
+    const Bytes *pd; const std::string *pl; int rx = RX_DATAGRAM;
+    if (g_tail) { tail_case(i, dg, label); pd = &dg; pl = &label; } else { pd = &g_cases[i].dg; pl = &g_cases[i].label; rx = g_cases[i].rx; }
+    static const Bytes nothing; const Bytes *jd = rx == RX_DATAGRAM ? pd : &nothing;     // what the code under test was given
     unsigned vg0 = VALGRIND_COUNT_ERRORS;
-    shm->phase = 1; Obs o0 = run_once(*pd, 0x00);
+    shm->phase = 1; Obs o0 = run_once(*pd, 0x00, rx);
     // second paint: 0xA5 (an uninitialised id/flags word then reads as "reply to the outstanding lookup"). In the tail sweep,
     // datagrams that do carry id and flags use 0x01 instead: uninitialised record counts then read 257 instead of 42405,
     // which keeps the 16.8 M-datagram sweep affordable (same defects, 160 times fewer garbage iterations).
     unsigned char p2 = (g_tail && pd->size() >= 4) ? 0x01 : 0xA5;
-    shm->phase = 2; Obs o1 = run_once(*pd, p2);
+    shm->phase = 2; Obs o1 = run_once(*pd, p2, rx);
     unsigned vg1 = VALGRIND_COUNT_ERRORS;
     shm->phase = 3;
-    if (vg1 != vg0) { Strict sx = ref_strict(pd->data(), pd->size()); violation("dns-" + (sx.shape == "well-formed" ? std::string("well-formed-reply") : sx.shape) + "-valgrind-reports-invalid-or-uninitialised-value-use", *pl, *pd, std::to_string(vg1 - vg0) + " memcheck errors during the two deliveries"); outcome(pl->substr(0, pl->find(' ')) + " -> memcheck-error"); }
-    else judge(*pd, *pl, o0, o1);
+    if (vg1 != vg0) { Strict sx = ref_strict(jd->data(), jd->size()); violation("dns-" + (sx.shape == "well-formed" ? std::string("well-formed-reply") : sx.shape) + "-valgrind-reports-invalid-or-uninitialised-value-use", *pl, *jd, std::to_string(vg1 - vg0) + " memcheck errors during the two deliveries"); outcome(pl->substr(0, pl->find(' ')) + " -> memcheck-error"); }
+    else judge(*jd, *pl, o0, o1);
+    // ignored under both paints: the outstanding lookup must still be there and must still complete (every case of the structured
+    // sweeps; every g_probe_every-th ignored datagram of the id+string sweep)
+    if (!o0.cb && !o1.cb) {
+      shm->phase = 4; Strict sx = ref_strict(jd->data(), jd->size()); std::string shape = sx.shape == "well-formed" ? "well-formed-reply" : sx.shape;
+      if (!w_dns->isRunning(kId)) { violation("dns-" + shape + "-datagram-is-ignored-but-the-outstanding-lookup-is-gone", *pl, *jd, "isRunning(id) is false and the callback was never invoked"); w_pristine = false; }
+      else if (g_probe_every && (g_ignored_seen++ % g_probe_every) == 0) { std::string why = probe_world(); if (!why.empty()) violation("dns-" + shape + "-datagram-is-ignored-but-the-lookup-no-longer-completes", *pl, *jd, why); }
+    }
     if (shm->samples < 4 && (shm->done % 997) == 3) { shm->samples++; std::string s = "@SAMPLE " + g_tagname + " " + *pl + " :: " + hex(*pd) + " => " + o0.str() + "\n"; emit(s.c_str()); }
     shm->done++;
   }
@@ -266,19 +342,24 @@ int main(int argc, char **argv) {
     const char *a = getenv("C15_DEADLINE_MONO"); if (a) g_deadline = atof(a); }   // absolute CLOCK_MONOTONIC seconds (set by check.py)
   if (mode == "one") {
     Bytes dg; const char *h = argc > 2 ? argv[2] : ""; for (size_t i = 0; h[i] && h[i + 1]; i += 2) { unsigned v; sscanf(h + i, "%2x", &v); dg.push_back(v); }
+    if (argc > 3 && std::string(argv[3]) == "sock") g_sock = true;
     g_cases.clear(); add_case(dg, "one:replay"); g_ncases = 1;
   } else if (mode == "tail3s") {
-    g_shard = argc > 2 ? atoi(argv[2]) : 0; g_nshards = argc > 3 ? atoi(argv[3]) : 1; g_tail = g_tail3s = true; g_ncases = 65536 * 6;
+    g_shard = argc > 2 ? atoi(argv[2]) : 0; g_nshards = argc > 3 ? atoi(argv[3]) : 1; g_tail = g_tail3s = true; g_ncases = 65536 * 6; g_probe_every = 8;
   } else if (mode == "tail") {
     g_shard = argc > 2 ? atoi(argv[2]) : 0; g_nshards = argc > 3 ? atoi(argv[3]) : 1; g_tail_max = argc > 4 ? atoi(argv[4]) : 2; g_tail = true;
+    g_probe_every = g_tail_max >= 3 ? 8 : 1;
     uint64_t c = 1; g_ncases = 0; for (int l = 0; l <= g_tail_max; l++) { g_ncases += c; c *= 256; }
   } else {
     g_shard = argc > 2 ? atoi(argv[2]) : 0; g_nshards = argc > 3 ? atoi(argv[3]) : 1;
-    build_struct_cases(argc > 4 && std::string(argv[4]) == "pairs");
+    bool pairs = false; for (int i = 4; i < argc; i++) { if (std::string(argv[i]) == "pairs") pairs = true; if (std::string(argv[i]) == "sock") g_sock = true; }
+    build_struct_cases(pairs);
   }
-  g_tagname = std::string(BUILD_TAG) + ":" + mode;
+  { Bytes a = bases()[0].b; a[0] = kId >> 8; a[1] = kId & 0xff; g_probe = a; }
+  g_tagname = std::string(BUILD_TAG) + ":" + mode + (g_sock ? "-via-socket-event" : "");
   // harness self-test: the intact base replies decode to what they were built to say (strict decoder and real parser)
   if (!g_tail && g_shard == 0) for (auto &B : bases()) { Strict st = ref_strict(B.b.data(), B.b.size());
+    if (std::string(B.name) == "MAX" && B.b.size() != 4096) printf("@VIOL sig=harness-selftest-max-base-is-not-4096-bytes :: %zu\n", B.b.size());
     if (st.shape != "well-formed" || st.a != B.expect.a || st.c != B.expect.c) { printf("@VIOL sig=harness-selftest-strict-decoder-disagrees-with-base :: %s %s\n", B.name, hex(B.b).c_str()); } }
   int errfd = (int)syscall(SYS_memfd_create, "c15err", 0);
   uint64_t start = 0; uint64_t crashes = 0; int spawned = 0;
@@ -312,7 +393,8 @@ int main(int argc, char **argv) {
     else if (WIFSIGNALED(st)) effect = "crash-signal" + std::to_string(WTERMSIG(st));
     else effect = "crash-exit" + std::to_string(WEXITSTATUS(st));
     if (detail.empty()) { size_t f = err.find("    #"); for (int k = 0; k < 6 && f != std::string::npos; k++) { size_t e = err.find('\n', f); std::string ln = err.substr(f, e - f); if (ln.find("dns_request.cpp") != std::string::npos || ln.find("serializer.cpp") != std::string::npos) { detail = ln.substr(ln.find("#")); break; } f = err.find("    #", e); } }
-    char ph[48]; snprintf(ph, sizeof ph, "died in phase %d (1=paint00 2=second paint 3=oracle)", shm->phase);
+    if (!g_tail && g_cases[at].rx != RX_DATAGRAM) { dg.clear(); sx = ref_strict(dg.data(), 0); shape = sx.shape; }
+    char ph[80]; snprintf(ph, sizeof ph, "died in phase %d (1=paint00 2=second paint 3=oracle 4=follow-up reply)", shm->phase);
     violation("dns-" + shape + "-" + effect, label, dg, std::string(ph) + (detail.empty() ? "" : "; " + detail));
     outcome(label.substr(0, label.find(' ')) + " -> " + effect);
     shm->done++;
@@ -322,8 +404,8 @@ int main(int argc, char **argv) {
   for (auto &e : shm->outs) if (e.txt[0]) printf("@OUTCOME parser %s n=%lu [%s shard %lu]\n", e.txt, (unsigned long)e.n, g_tagname.c_str(), (unsigned long)g_shard);
   for (auto &e : shm->sigs) if (e.sig[0]) printf("@INFO %s shard %lu: %lu datagrams with signature %s\n", g_tagname.c_str(), (unsigned long)g_shard, (unsigned long)e.n, e.sig);
   bool plain = std::string(BUILD_TAG) == "plain";   // distinct datagrams are counted once (plain build); the ASan build re-evaluates a subset
-  printf("@STAT states=%lu %s=%lu transitions=%lu executions=%lu violations=%lu callbacks=%lu ignored=%lu paint_dependent=%lu worker_deaths=%lu workers=%d world_reused=%lu world_rebuilt=%lu strict_exact=%lu strict_lenient=%lu\n",
+  printf("@STAT states=%lu %s=%lu transitions=%lu executions=%lu violations=%lu callbacks=%lu ignored=%lu paint_dependent=%lu worker_deaths=%lu workers=%d world_reused=%lu world_rebuilt=%lu strict_exact=%lu strict_lenient=%lu followup_probes=%lu\n",
          (unsigned long)(plain ? shm->done : 0), plain ? "datagrams_plain" : RUNNING_ON_VALGRIND ? "datagrams_valgrind" : "datagrams_asan", (unsigned long)shm->done, (unsigned long)shm->execs, (unsigned long)shm->execs, (unsigned long)shm->viols, (unsigned long)shm->callbacks, (unsigned long)shm->ignored,
-         (unsigned long)shm->paint_diff, (unsigned long)crashes, spawned, (unsigned long)shm->reused, (unsigned long)shm->rebuilt, (unsigned long)shm->strict_exact, (unsigned long)shm->strict_differs);
+         (unsigned long)shm->paint_diff, (unsigned long)crashes, spawned, (unsigned long)shm->reused, (unsigned long)shm->rebuilt, (unsigned long)shm->strict_exact, (unsigned long)shm->strict_differs, (unsigned long)shm->probes);
   return 0;
 }
